@@ -133,12 +133,25 @@ class Watchdog(Exception):
     pass
 
 
+_WD = {"cpu": 0.0, "left": 0, "timeout": 5.0}
+
+
 def _alarm(signum, frame):
+    # a call that really loops burns processor time; a process that was merely starved (a loaded machine, a stopped
+    # scheduler slice) has used little of it since the timer was set: give it more wall-clock time, a bounded number of times
+    import time as _t
+    used = _t.process_time() - _WD["cpu"]
+    if used < 0.5 * _WD["timeout"] and _WD["left"] > 0:
+        _WD["left"] -= 1
+        signal.setitimer(signal.ITIMER_REAL, _WD["timeout"])
+        return
     raise Watchdog()
 
 
 def guarded(fn, *args, timeout=5.0):
+    import time as _t
     old = signal.signal(signal.SIGALRM, _alarm)
+    _WD.update(cpu=_t.process_time(), left=24, timeout=timeout)
     signal.setitimer(signal.ITIMER_REAL, timeout)
     try:
         return fn(*args)
@@ -729,8 +742,36 @@ def decoded(fn):
     return fn()
 
 
+_LIVE = []
+_FLIP = bytes(i ^ 0xFF for i in range(256))
+
+
+def live(buf):
+    """Remember a mutable receive buffer handed to a decoder; scramble() later overwrites it in place."""
+    if isinstance(buf, bytearray):
+        _LIVE.append(buf)
+    return buf
+
+
+def scramble():
+    """The receiver re-uses its buffer: every mutable buffer handed to a decoder since the last call is overwritten in place
+    (same length).  A decoded object must own its contents - with a bytearray every slice the decoder takes is a copy, so this
+    changes nothing unless the decoder kept a view of the caller's buffer."""
+    for b in _LIVE:
+        b[:] = bytes(b).translate(_FLIP)
+    del _LIVE[:]
+
+
 def rxbuf(raw, sfx=()):
-    """The buffer handed to a decoder: bytes or bytearray (receive buffers, e.g. what the stream parser returns, are
-    bytearrays), chosen deterministically from the content so that both types are exercised on every grid."""
+    """The buffer handed to a decoder: bytes, bytearray (receive buffers, e.g. what the stream parser returns, are
+    bytearrays) or a read-only memoryview (a window into a larger buffer), chosen deterministically from the content so that
+    all three are exercised on every grid. Bytearrays are remembered for scramble()."""
     b = bytes(raw) + bytes(sfx)
-    return bytearray(b) if (len(b) + (b[-1] if b else 0)) % 2 else b
+    k = (len(b) + (b[-1] if b else 0)) % 3
+    if k == 1:
+        return live(bytearray(b))
+    if k == 2:
+        return memoryview(b)
+    return b
+
+
